@@ -16,6 +16,16 @@ PROPS = {
         "modelled": COMMON_MODELLED,
         "assumptions": ["no push policy installed (C14 covers policies)", "lengths < 2^62, ints are 64-bit"],
     },
+    "C07": {
+        "lean": ["Stackage.Props.C07"],
+        "streams": [{"name": "paths", "quick": 3000, "thorough": 60000}],
+        "rule": "random trees (depth <= 3 quick / 4 thorough, width <= 4; nested stacks as native / alias / alias-with-String / pointer, Conditions with stack and "
+                "non-stack expressions, nil slots, zero-valued Stack elements, per-node negative/forward index options) x 1-6 paths each of length 0..depth+2 with "
+                "indices from [-1,5] plus MinInt/MaxInt; the value (structurally described) and the flag compared; non-trivial = some path has >= 2 indices",
+        "modelled": COMMON_MODELLED,
+        "assumptions": ["a Condition alias at the end of a path comes back as the native handle of the same instance (treated as the same value)",
+                        "no validity policy on the nodes of the generated trees (the theorem covers them through `Stk.valid`)"],
+    },
     "C08": {
         "lean": ["Stackage.Props.C08"],
         "streams": [{"name": "histx", "quick": 3000, "thorough": 60000}],
@@ -175,6 +185,8 @@ def nontrivial(pid, payload):
     kinds = {o.split(" ")[0] for o in ops if o}
     if pid == "C15":
         return " [ ]" not in payload.split(" | ")[0]     # non-empty source
+    if pid == "C07":
+        return any(len(o.split(" ")) >= 3 for o in ops)
     if pid == "C02":
         return payload.count(" ") >= 6
     if pid in ("C13", "C14", "C06"):
